@@ -326,6 +326,33 @@ static std::string gen_numeral(vf::Rng &r, uint64_t variant, const char *&cls, b
             return s;
         }
         case 3: {
+            if (r.chance(1, 2)) {
+                // one value d.ddd x 10^E, many spellings: zeros between the point and the first digit, trailing zeros
+                // before the exponent, the point anywhere; E leans towards both ends of the double range, where the
+                // written exponent alone says nothing about the magnitude
+                cls   = "spelling";
+                int E = r.chance(1, 2) ? (r.chance(1, 2) ? -322 + int(r.below(40)) : 285 + int(r.below(28))) : int(r.below(632)) - 322; // (below the subnormals: not generated)
+                std::string D = digits(r, r.range(1, 20), true);
+                unsigned    k = r.chance(1, 3) ? r.below(5) : r.below(45);
+                long        x;
+                switch (r.below(3)) {
+                    case 0:
+                        s = "0." + std::string(k, '0') + D;
+                        x = long(E) + 1 + long(k);
+                        break;
+                    case 1:
+                        s = D + std::string(k, '0');
+                        x = long(E) - long(D.size() - 1) - long(k);
+                        break;
+                    default: {
+                        size_t j = 1 + r.below(uint32_t(D.size()));
+                        s        = D.substr(0, j) + (j < D.size() ? "." + D.substr(j) : std::string());
+                        x        = long(E) - long(j - 1);
+                    }
+                }
+                s = sign + s + (r.chance(1, 2) ? "e" : "E") + (x < 0 ? "-" : (r.chance(1, 2) ? "+" : "")) + std::to_string(x < 0 ? -x : x);
+                return s;
+            }
             cls   = "exponent";
             int e = int(r.below(640)) - 330;
             std::string m = digits(r, r.range(1, 18), true);
